@@ -18,6 +18,38 @@ def family(ctx, tag, n, quick, bogus=True, faults=0, maxc=5, name="sim", **kw):
     return [D.to_scenario("%s/%s/%d" % (tag, name, k), sc, **kw) for k, sc in enumerate(pick(scripts, n, ctx.seed))]
 
 
+def forms_family(tag, n, what):
+    """canonical exhaustive family: every sequence of n chunks over {X, Y} x {full, alias} (what = "up") or over data ids {A, B} x {id, alias}
+    (what = "id"), each chunk read and acknowledged before the next one is sent (send -> read -> ack tick), alias forms only after the
+    corresponding full form was seen (the broker never guesses an alias). These are the canonical interleavings of Downstream.tla's BSend /
+    Read* / AckTick actions; the model explores the non-canonical ones as well."""
+    import itertools
+    scs = []
+    names = ("X", "Y") if what == "up" else ("A", "B")
+    for k, seq in enumerate(itertools.product([(a, f) for a in names for f in ("full", "alias")], repeat=n)):
+        seen = set()
+        ok = True
+        for a, f in seq:
+            if f == "alias" and a not in seen:
+                ok = False
+                break
+            seen.add(a)
+        if not ok:
+            continue
+        steps = []
+        for j, (a, f) in enumerate(seq):
+            if what == "up":
+                steps.append({"a": "sendChunk", "k": j + 1, "up": a, "upF": "info" if f == "full" else "alias", "upAl": 0 if f == "full" else 1,
+                              "id": "A", "idF": "id", "idAl": 0})
+            else:
+                steps.append({"a": "sendChunk", "k": j + 1, "up": "X", "upF": "info", "upAl": 0,
+                              "id": a, "idF": "id" if f == "full" else "al", "idAl": 0 if f == "full" else 1})
+            steps += [{"a": "read", "g": "R1"}, {"a": "ackTick"}]
+        steps.append({"a": "close"})
+        scs.append(D.to_scenario("%s/forms-%s%d/%d" % (tag, what, n, k), steps, prereg=()))
+    return scs
+
+
 def meta_family(tag):
     """metadata from two source nodes interleaved with chunks; per-source order and acks (C03)."""
     scs = []
@@ -52,6 +84,28 @@ def core(tag):
     return scs
 
 
+def backpressure_family(tag):
+    """the broker stops reading for longer than the ack flush interval (an ack write is blocked in the transport) while chunks with new
+    upstreams / data ids are consumed; then it reads again. Everything consumed must still be acknowledged / announced exactly once."""
+    scs = []
+    ch = lambda k, up, idn: {"a": "sendChunk", "obj": "D1", "up": up, "upF": "info", "upAl": 0, "seq": k, "groups": [{"f": "id", "id": idn, "al": 0, "pts": [[k, 5]]}]}
+    for n in (1, 2, 3):
+        steps = [{"a": "connect", "must": True},
+                 {"a": "openDown", "obj": "D1", "qos": "reliable", "srcs": ["n1"], "ids": ["A"], "ackFlushMs": 20, "must": True},
+                 ch(1, "X", "A"), {"a": "read", "g": "R1", "obj": "D1", "ctxMs": 1500, "wait": True},
+                 {"a": "stopReading"}, {"a": "sleep", "ms": 70}]
+        for j in range(n):
+            steps += [ch(2 + j, "YZW"[j], "BCD"[j]), {"a": "read", "g": "R%d" % (2 + j), "obj": "D1", "ctxMs": 3000}, {"a": "sleep", "ms": 40}]
+        steps += [{"a": "stopReading", "mode": "off"}]
+        for j in range(n):
+            steps.append({"a": "join", "obj": "R%d" % (2 + j)})
+        steps += [{"a": "sleep", "ms": 60}, ch(9, "X", "A"), {"a": "read", "g": "R1", "obj": "D1", "ctxMs": 1500, "wait": True}, {"a": "sleep", "ms": 45},
+                  {"a": "closeDown", "g": "C", "obj": "D1", "ctxMs": 3000, "wait": True}, {"a": "quiesce"},
+                  {"a": "closeConn", "g": "main2", "wait": True, "ctxMs": 2000}, {"a": "quiesce", "ms": 50}]
+        scs.append({"id": "%s/backpressure/%d" % (tag, n), "kind": "iscp", "conn": {"pingMs": [5000, 1000]}, "steps": steps})
+    return scs
+
+
 def run(pid="C04", mon="MonC04"):
     ctx = Ctx(pid)
     quick = ctx.quick()
@@ -69,9 +123,11 @@ def run(pid="C04", mon="MonC04"):
         os.remove(os.path.join(SPEC, cfg))
     scs = core(pid) + family(ctx, pid, 40 if quick else 400, quick, bogus=False, maxc=6, name="sim")
     scs += family(ctx, pid, 25 if quick else 300, quick, bogus=True, maxc=4, name="bogus")
+    scs += forms_family(pid, 4, "up") + forms_family(pid, 4, "id") if quick else forms_family(pid, 5, "up") + forms_family(pid, 5, "id")
     if pid == "C03":
         scs += meta_family(pid)
     if pid == "C04":
+        scs += backpressure_family(pid)
         scs += family(ctx, pid, 25 if quick else 300, quick, bogus=False, faults=1, maxc=5, name="resume",
                       conn={"pingMs": [100, 100], "dialDelayMs": 40}, ack_flush_ms=250)
     trace = ctx.run_scenarios(scs, pid.lower(), par=8)
